@@ -23,7 +23,7 @@ LEAN_MODULES = ['GnpyProofs.Props.C16']
 THEOREMS = [f'Gnpy.Plan.{t}' for t in (
     'plan_results_pointwise', 'plan_result_context', 'plan_perm', 'plan_leaves_settings', 'copy_leaves_settings',
     'planCopy_spec', 'planCopy_pointwise', 'effGain_antitone', 'call_unsaturated', 'call_saturated', 'edfa_state_leaks',
-    'shared_differs')]
+    'shared_differs', 'propagate_unsaturated', 'planShared_eq_planCopy_of_unsaturated')]
 RULE = ('one PRNG; batch cases (85 %): random mesh of 3-5 ROADM sites + island, generated library, design power 0/2/3 dBm, '
         '2-8 requests of the kinds fixed/auto/hard/autohard/narrow/nopath/constraint/loose/huge/reserved/multislot/dense/'
         'saturating (a +3..5 dB offset comb over the full band that drives amplifiers into their p_max clamp; the number of '
@@ -36,6 +36,8 @@ MODEL_SCOPE = ('modelled: planning as a function (results = map of a per-request
                'deep copy of compute_path_with_disjunction (propagateOnCopy), Edfa.interpol_params persistent clamp '
                'effective_gain = min(effective_gain, p_max - pin). not modelled: what computeOne computes (C11-C14), '
                'Python object identity')
+MANIFEST = {'level_note': 'proof of the pipeline model; run-time aliasing (is every mutable object really copied) is partial: '
+                          'correspondence + monitor only'}
 PARTIAL = ['run-time aliasing (whether deepcopy really separates every mutable object reachable from a path, shared library '
            'dicts, class attributes) cannot be a theorem about the functional model: it is carried by the correspondence '
            'check and the monitor only; theorem edfa_state_leaks shows the property rests on that copy']
